@@ -839,7 +839,8 @@ def guess_fileformat(fileorname, fileformat=None):
         else:
             name = fileorname.name
         return os.path.splitext(name)[-1][1:]
-    except (AttributeError, ValueError, IndexError):
+    except (AttributeError, ValueError, IndexError, TypeError):
+        # (the `name` of an open file may be a file descriptor)
         raise ValueError(
             "Cannot guess a file format from arguments. Please specify the format manually.")
 
@@ -877,7 +878,8 @@ def _process_graph_io_arguments(iofile, graph_type, file_format, multi_edges):
     if file_format == 'autodetect':
         try:
             extension = os.path.splitext(iofile.name)[-1][1:]
-        except AttributeError:
+        except (AttributeError, TypeError):
+            # (the `name` of an open file may be a file descriptor)
             raise ValueError(
                 "Cannot guess a file format from an IO stream with no name. Please specify the format manually."
             )
